@@ -345,6 +345,8 @@ func concErrClass(err error) string {
 		return "Eget"
 	case errors.As(err, &fe):
 		return "Efn" + strconv.Itoa(fe.code)
+	case strings.Contains(err.Error(), "exclusive decode did not complete"):
+		return "Eaborted"
 	}
 	return "Eother(" + err.Error() + ")"
 }
@@ -418,6 +420,8 @@ func init() {
 	pdf.VerifYield = func(point string) {
 		if e := concActive.e; e != nil {
 			e.gate(point)
+		} else if cp := concCoopActive; cp != nil {
+			cp.yield(point)
 		}
 	}
 }
@@ -653,7 +657,7 @@ func (e *concExec) threadMain(th *concThread) {
 }
 
 // wait for the released thread to park, finish or die; the watchdog sends "stuck" when no
-// goroutine has reached a scheduling point for 20 s
+// goroutine has reached a scheduling point for 8 s
 func (e *concExec) await(t int) (concPark, bool) {
 	m := <-e.parked
 	concProgress.Add(1)
@@ -676,7 +680,7 @@ func init() {
 				last, since = n, time.Now()
 				continue
 			}
-			if time.Since(since) > 20*time.Second {
+			if time.Since(since) > 8*time.Second {
 				select {
 				case e.parked <- concPark{point: "stuck"}:
 				default:
@@ -732,6 +736,18 @@ func (e *concExec) note(th *concThread, m concPark) {
 		th.done = true
 	case "dead":
 		th.dead = true
+		// the deferred release of DecodeExclusive: every pending the dead goroutine owned is
+		// closed with an error and its marker is gone (if it is not, a released waiter hangs: the
+		// watchdog reports it)
+		for _, s := range th.owned {
+			e.closed[s] = true
+			for k, os := range e.owner {
+				if os == s {
+					delete(e.owner, k)
+				}
+			}
+		}
+		th.owned = nil
 	case "ex:owner":
 		key := th.xkeys[len(th.xkeys)-1]
 		if s, dup := e.owner[key]; dup {
@@ -996,7 +1012,11 @@ func concRunSchedule(p *concProg, g concGetter, gmax int, sched []int, extend bo
 		en = append(en, l)
 		full = append(full, t)
 		if !e.stepThread(t) {
-			return full, en, "", append(e.viol, fmt.Sprintf("stuck\x00thread %d did not reach a scheduling point within 20 s after schedule %v", t, full)), false
+			key := "stuck"
+			if p.fnPanic && p.hasExcl {
+				key = "excl-marker-not-released"
+			}
+			return full, en, "", append(e.viol, fmt.Sprintf("%s\x00thread %d did not reach a scheduling point within 8 s after schedule %v (a waiter of an exclusive decode whose owner panicked is never released: the in-progress marker and the done channel are left behind)", key, t, full)), false
 		}
 		i++
 	}
